@@ -1,357 +1,55 @@
 package main
 
-import (
-	"fmt"
-	"go/token"
-	"strings"
-
-	"golang.org/x/tools/go/ssa"
-)
-
 func init() {
 	register(&propDef{
 		id: "C08", run: runC08, minOblig: 25,
-		explanation: "Decides the state discipline and the constructor tables of the sha3 package. (delegation) New224/256/384/512, Sum224/256/384/512 and the SHAKE/cSHAKE constructors return the like-named crypto/sha3 function applied to the same arguments, with default output sizes 32/64 and — for cSHAKE — a re-creation closure that uses the SAME (N, S); (Sum never changes the running state) legacy state.Sum and shakeWrapper.Sum are receiver-pure by interprocedural effect analysis (both squeeze a clone; the legacy state struct has no reference field so the clone is deep; shakeWrapper.Clone builds a fresh SHAKE and transfers the state by Marshal/Unmarshal, its result never aliases the receiver's embedded pointer); (panics as documented) legacy Write and Sum panic exactly when the sponge is squeezing, shakeWrapper.Sum exactly when its squeezing flag is set, Read sets that flag before delegating and Clone copies it (evaluated on both flag values); (legacy sponge) Read pads exactly once — padAndPermute is reachable exactly in the absorbing state and switches to squeezing; both padding constants (the domain-separation byte at position n and 0x80 at position rate-1) are merged into the state by XOR read-modify-write on the state array, so they combine when n = rate-1; the legacy constructors use rate 136 / output 32 and rate 72 / output 64 with domain byte 0x01; Write permutes exactly when the block is full. NOT decided: Keccak-f[1600] values, the standard library's SHA-3/SHAKE, digest values.",
+		explanation: "Decides the state discipline, the sponge bookkeeping and the constructor tables of the sha3 package by ABSTRACT INTERPRETATION of its public functions: every rule runs the function over a small finite domain (slices by length, scalar fields of the receiver as tracked state, pointers as abstract identities), with every helper of the package interpreted in place, and compares the observed effect transcript with the specification; the records and their fields are found by type (the struct holding the [200]byte state array, the struct holding a *crypto/sha3.SHAKE), so the verdicts do not depend on how the code is split into helpers or on any name of a local, parameter, receiver, helper or unexported type. (delegation) New224/256/384/512 and Sum224/256/384/512 return the result of the one call of the like-named crypto/sha3 function on the same argument; each SHAKE/cSHAKE constructor returns a fresh wrapper holding the result of the one call of crypto/sha3.NewSHAKE128/256 or NewCSHAKE128/256(N, S), default output size 32/64, not squeezing, and a re-creation function which — called by the rule — performs that same call with the SAME (N, S) again and returns a fresh SHAKE. (legacy sponge, for both rates, fill levels 0, 1, rate-2, rate-1, rate and lengths around 0, 1 and 2 blocks) Write XORs input byte j into state byte (n+j) mod rate and runs the Keccak-f core exactly after every rate-th byte (at once when a write fills the block); the first Read — and Sum — XOR exactly the domain byte into byte n and 0x80 into byte rate-1 (both into one byte when n = rate-1; a plain store, an OR, a scratch buffer whose bytes overwrite each other are all seen as what they do to the state bytes), permute the padded block and switch to squeezing; no padding when already squeezing; output byte j is state byte (n+j) mod rate after the right number of permutations, the core running exactly when the rate part is dry and more output is wanted; fill level, direction and results (len, nil) as required; the legacy constructors build rate 136 / output 32 and rate 72 / output 64, domain byte 0x01, empty, absorbing. (Sum never changes the running state) legacy Sum pads, permutes and squeezes outputLen bytes on a whole-value copy of the sponge (state array, fill level, rate, domain byte copied; the record has no reference field so the copy is deep), every field of the receiver is as before, the result is the argument followed by the digest; additionally legacy Sum is receiver-pure by interprocedural effect analysis; the wrapper's Sum reads outputLen bytes from a FRESH SHAKE built by the receiver's re-creation function into which the marshalled state of the receiver's SHAKE was unmarshalled, MarshalBinary being the only operation that reaches the receiver's SHAKE, no field of the receiver changing. (Clone is independent) shakeWrapper.Clone returns a new wrapper holding such a fresh SHAKE with the receiver's output size, squeezing flag (both values) and re-creation function; a failing Marshal/Unmarshal panics. (panics as documented) legacy Write and Sum panic, before any effect, exactly when the sponge is squeezing; the wrapper's Sum exactly when its flag is set; the wrapper's Read sets the flag, reads len(p) bytes from the wrapped SHAKE into p once and returns that result; no other exported method of the wrapper changes the flag. NOT decided: Keccak-f[1600] values (the core is summarised as 'permutes this state array'), the standard library's SHA-3/SHAKE, digest values, Reset and the (un)marshalling of the legacy sponge.",
 		assumptions: []string{"crypto/sha3 implements FIPS 202", "hash.Hash / encoding.BinaryMarshaler contracts"},
 	})
-	tech("C08", "interprocedural receiver-effect analysis; finite-domain evaluation of the state-flag guards; read-modify-write (XOR) store-shape rule for the padding; constructor/delegation tables")
+	tech("C08", "abstract interpretation (path walker) of every public function with in-place interpretation of helpers, closures and devirtualised interface calls; byte-granular XOR/copy transcript of the sponge compared with the construction; abstract pointer identities for the SHAKE wrapper; interprocedural receiver-effect analysis")
 }
 
 func runC08(c *Ctx) {
-	c08Sponge(c)
-	// --- delegation table
-	for _, n := range []string{"224", "256", "384", "512"} {
-		for _, pre := range []string{"New", "Sum"} {
-			f := c.fn("sha3", pre+n)
-			if f == nil {
-				continue
-			}
-			want := "crypto/sha3." + pre + n
-			cs := callsNamed(f, want)
-			ok := len(cs) == 1
-			if ok && pre == "Sum" {
-				ok = cs[0].Common().Args[0] == ssa.Value(f.Params[0])
-			}
-			if ok {
-				for _, r := range returnsOf(f) {
-					if stripConv(retVal(r, 0)) != callValue(cs[0]) {
-						ok = false
-					}
-				}
-			}
-			c.check(ok, "C08.delegation", "sha3."+pre+n, f, "returns "+want+" of the same argument", "sha3."+pre+n+" does not delegate to "+want)
-		}
+	m := c08NewModel(c)
+	if m.pkg == nil {
+		c.fail("anchor", "sha3", nil, "package not found")
+		return
 	}
-	type shk struct {
-		fn, std string
-		out     int64
-		nArgs   int
+	if !m.resolveTypes() {
+		return
 	}
-	for _, s := range []shk{{"NewShake128", "NewSHAKE128", 32, 0}, {"NewShake256", "NewSHAKE256", 64, 0}, {"NewCShake128", "NewCSHAKE128", 32, 2}, {"NewCShake256", "NewCSHAKE256", 64, 2}} {
-		f := c.fn("sha3", s.fn)
-		if f == nil {
-			continue
-		}
-		cs := callsNamed(f, "crypto/sha3."+s.std)
-		ok := len(cs) == 1
-		if ok {
-			for i := 0; i < s.nArgs; i++ {
-				if !isParamVal(cs[0].Common().Args[i], f, i) {
-					ok = false
-				}
-			}
-		}
-		var lit map[string]ssa.Value
-		for _, r := range returnsOf(f) {
-			lit = litFields(stripConv(retVal(r, 0)))
-		}
-		okLit := lit != nil
-		if okLit {
-			k, isK := constInt(lit["outputLen"])
-			sq, isB := constBool(lit["squeezing"])
-			okLit = ok && lit["SHAKE"] == callValue(cs[0]) && isK && k == s.out && (lit["squeezing"] == nil || isB && !sq)
-			// factory
-			switch fv := lit["newSHAKE"].(type) {
-			case *ssa.Function:
-				okLit = okLit && s.nArgs == 0 && short(fv.String()) == "crypto/sha3."+s.std
-			case *ssa.MakeClosure:
-				cl := fv.Fn.(*ssa.Function)
-				ics := callsNamed(cl, "crypto/sha3."+s.std)
-				okCl := len(ics) == 1 && len(fv.Bindings) == s.nArgs
-				if okCl {
-					for i := 0; i < s.nArgs; i++ {
-						// closure free var i is bound to parameter i (possibly via the spilled alloc)
-						a := ics[0].Common().Args[i]
-						fvIdx := -1
-						if u, isU := a.(*ssa.UnOp); isU {
-							a = u.X
-						}
-						for j, fvv := range cl.FreeVars {
-							if ssa.Value(fvv) == a {
-								fvIdx = j
-							}
-						}
-						if fvIdx < 0 {
-							okCl = false
-							continue
-						}
-						b := fv.Bindings[fvIdx]
-						if b != ssa.Value(f.Params[i]) {
-							if al, isA := b.(*ssa.Alloc); !isA || al.Comment != f.Params[i].Name() {
-								okCl = false
-							}
-						}
-					}
-				}
-				okLit = okLit && okCl
-			default:
-				okLit = false
-			}
-		}
-		c.check(ok && okLit, "C08.delegation", "sha3."+s.fn, f, fmt.Sprintf("wraps crypto/sha3.%s, default output %d, not squeezing, factory re-creates the same function", s.std, s.out), "sha3."+s.fn+" does not wrap crypto/sha3."+s.std+" with the documented default output size and a matching re-creation function")
-	}
-	// --- purity
+	c08Legacy(c, m)
+	c08Ctors(c, m)
+	wrapSum := c08Wrapper(c, m)
+	// --- Sum never changes the running state: interprocedural effect analysis
+	// (independent of the interpretation above: it also sees writes through
+	// aliases the walks do not model)
 	pur := newPurity()
-	for _, n := range []string{"(*state).Sum", "(*shakeWrapper).Sum"} {
-		f := c.fn("sha3", n)
-		if f == nil {
-			continue
-		}
+	if f := c.fn("sha3", "(*"+m.sponge.Obj().Name()+").Sum"); f != nil {
 		ok, why, at := pur.paramPure(f, 0, 0)
 		var pos poser = f
 		if at != nil {
 			pos = at
 		}
-		c.check(ok, "C08.sum-pure", "sha3."+n, pos, "Sum cannot write to the receiver's state", "Sum writes to the running state: "+why)
+		c.check(ok, "C08.sum-pure", "sha3."+fnName(f), pos, "Sum cannot write to the receiver's state", "Sum writes to the running state: "+why)
 	}
-	if t := c.namedType("sha3", "state"); t != nil {
-		c.check(!hasRefs(t, 0), "C08.sum-pure", "sha3.state is reference-free", nil, "value copy of the legacy sponge is deep", "the legacy sponge struct has a reference field; clone() shares storage")
+	// the wrapper holds its sponge behind a pointer, so "Sum does not touch the
+	// running state" is a statement about which *SHAKE each operation reaches.
+	// The interpretation decides it exactly (every call into crypto/sha3 is a
+	// token carrying the identity of its receiver: only MarshalBinary may reach
+	// the receiver's SHAKE, no field of the receiver may change, no other call
+	// is allowed); the flow-insensitive effect analysis is run as well and its
+	// verdict is reported, but it cannot separate the clone's SHAKE from the
+	// receiver's when the clone starts as a value copy of the wrapper.
+	if f := c.fn("sha3", "(*"+m.wrap.Obj().Name()+").Sum"); f != nil {
+		okP, why, _ := pur.paramPure(f, 0, 0)
+		detail := "by interpretation: only MarshalBinary reaches the receiver's SHAKE, the digest is read from the fresh one, no field of the receiver changes"
+		if okP {
+			detail += "; the interprocedural effect analysis agrees"
+		} else {
+			detail += "; (the flow-insensitive effect analysis cannot tell the clone's SHAKE from the receiver's here: " + why + ")"
+		}
+		c.check(wrapSum == "", "C08.sum-pure", "sha3."+fnName(f), f, detail, "Sum writes to the running state: "+wrapSum)
 	}
-	if f := c.fn("sha3", "(*state).clone"); f != nil {
-		ok := false
-		for _, r := range returnsOf(f) {
-			if al, isA := retVal(r, 0).(*ssa.Alloc); isA && al.Heap {
-				// *ret = *d
-				for _, ref := range *al.Referrers() {
-					if st, isS := ref.(*ssa.Store); isS && st.Addr == ssa.Value(al) {
-						if u, isU := st.Val.(*ssa.UnOp); isU && u.X == ssa.Value(f.Params[0]) {
-							ok = true
-						}
-					}
-				}
-			}
-		}
-		c.check(ok, "C08.sum-pure", "sha3.(*state).clone", f, "returns a fresh copy of the receiver's value", "clone does not return a fresh value copy")
-	}
-	if f := c.fn("sha3", "(*shakeWrapper).Clone"); f != nil {
-		ok := false
-		for _, r := range returnsOf(f) {
-			lit := litFields(stripConv(retVal(r, 0)))
-			if lit == nil {
-				continue
-			}
-			s, isC := lit["SHAKE"].(*ssa.Call)
-			if !isC || s.Call.StaticCallee() != nil || s.Call.IsInvoke() {
-				continue
-			}
-			// s := w.newSHAKE(); s.UnmarshalBinary(w.MarshalBinary())
-			if !strings.HasSuffix(accessPath(s.Call.Value), ".newSHAKE") {
-				continue
-			}
-			var um, mb *ssa.Call
-			for _, ref := range *s.Referrers() {
-				if cl, isCl := ref.(*ssa.Call); isCl && strings.HasSuffix(short(calleeName(&cl.Call)), "sha3.SHAKE).UnmarshalBinary") {
-					um = cl
-				}
-			}
-			for _, ci := range calls(f, func(n string) bool { return strings.HasSuffix(n, "sha3.SHAKE).MarshalBinary") }) {
-				mb = ci.(*ssa.Call)
-			}
-			if um == nil || mb == nil {
-				continue
-			}
-			ex, isE := um.Call.Args[1].(*ssa.Extract)
-			if !isE || ex.Tuple != ssa.Value(mb) || ex.Index != 0 {
-				continue
-			}
-			// both errors are checked (panic on failure)
-			y1, _ := errSuccessEdges(um)
-			y2, _ := errSuccessEdges(mb)
-			cut := edgeSet{}
-			cut.addAll(y1)
-			if pathFromEntry(r, cut) {
-				continue
-			}
-			cut2 := edgeSet{}
-			cut2.addAll(y2)
-			if pathFromEntry(r, cut2) {
-				continue
-			}
-			sq := lit["squeezing"]
-			ol := lit["outputLen"]
-			if strings.HasSuffix(accessPath(sq), ".squeezing") && strings.HasSuffix(accessPath(ol), ".outputLen") && strings.HasSuffix(accessPath(lit["newSHAKE"]), ".newSHAKE") {
-				ok = true
-			}
-		}
-		c.check(ok, "C08.clone", "sha3.(*shakeWrapper).Clone", f, "fresh SHAKE from the factory, state transferred by checked Marshal/Unmarshal, output size, squeezing flag and factory copied", "Clone does not produce an independent wrapper carrying the same sponge state and squeezing flag")
-	}
-	// --- flag guards
-	guard := func(fn, typ, field string, panicWhen func(v int64) bool, vals []int64, what string) {
-		f := c.fn("sha3", fn)
-		if f == nil {
-			return
-		}
-		bad := ""
-		for _, v := range vals {
-			e := newEnv()
-			if e.bindField(f, typ, field, v) == 0 {
-				bad = "guard field not read"
-				break
-			}
-			pans, rets, _ := e.reachableExits(f, nil)
-			if panicWhen(v) && (len(pans) == 0 || len(rets) > 0) {
-				bad = fmt.Sprintf("%s=%d: no panic although %s", field, v, what)
-			}
-			if !panicWhen(v) && len(pans) > 0 {
-				bad = fmt.Sprintf("%s=%d: panics although the sponge is still absorbing", field, v)
-			}
-		}
-		c.check(bad == "", "C08.guards", "sha3."+fn, f, "panics exactly when output has already been read", bad)
-	}
-	guard("(*state).Write", "state", "state", func(v int64) bool { return v != 0 }, []int64{0, 1}, "Write after Read")
-	guard("(*state).Sum", "state", "state", func(v int64) bool { return v != 0 }, []int64{0, 1}, "Sum after Read")
-	guard("(*shakeWrapper).Sum", "shakeWrapper", "squeezing", func(v int64) bool { return v != 0 }, []int64{0, 1}, "Sum after Read")
-	if f := c.fn("sha3", "(*shakeWrapper).Read"); f != nil {
-		ok := false
-		sts := storesTo(f, "shakeWrapper", "squeezing")
-		rd := calls(f, func(n string) bool { return strings.HasSuffix(n, "sha3.SHAKE).Read") })
-		if len(sts) == 1 && len(rd) == 1 {
-			v, isB := constBool(sts[0].Val)
-			ok = isB && v && (sts[0].Block() == rd[0].Block() && precedes(sts[0], rd[0]) || sts[0].Block().Dominates(rd[0].Block()))
-		}
-		c.check(ok, "C08.guards", "sha3.(*shakeWrapper).Read", f, "marks the wrapper as squeezing before producing output", "Read does not record that output has been produced")
-	}
-	// who-may-write squeezing: only Read sets it true
-	for _, fn := range c.funcsOfPkg("sha3") {
-		for _, st := range storesTo(fn, "shakeWrapper", "squeezing") {
-			if v, isB := constBool(st.Val); isB && v && fnName(fn) != "(*shakeWrapper).Read" {
-				c.fail("C08.guards", "squeezing set outside Read: "+fnName(fn), st, "the squeezing flag is set by a function other than Read")
-			}
-		}
-	}
-	// --- legacy sponge
-	if f := c.fn("sha3", "(*state).Read"); f != nil {
-		pp := calls(f, func(n string) bool { return strings.HasSuffix(n, "state).padAndPermute") })
-		ok := len(pp) == 1
-		if ok {
-			for _, v := range []int64{0, 1} {
-				e := newEnv()
-				e.bindField(f, "state", "state", v)
-				_, _, blocks := e.reachableExits(f, nil)
-				if blocks[pp[0].Block()] != (v == 0) {
-					ok = false
-				}
-			}
-		}
-		c.check(ok, "C08.pad", "sha3.(*state).Read pads once", f, "padAndPermute is reachable exactly in the absorbing state", "Read pads when already squeezing, or squeezes without padding")
-	}
-	if f := c.fn("sha3", "(*state).padAndPermute"); f != nil {
-		okSq := false
-		for _, st := range storesTo(f, "state", "state") {
-			if k, isK := constInt(st.Val); isK && k == 1 {
-				okSq = true
-			}
-		}
-		c.check(okSq, "C08.pad", "padAndPermute switches to squeezing", f, "state = spongeSqueezing", "padAndPermute leaves the sponge in the absorbing state")
-		// the two padding constants: XOR read-modify-write on d.a
-		type rmw struct {
-			idx ssa.Value
-			val ssa.Value
-		}
-		var rmws []rmw
-		var plain []*ssa.Store
-		allInstrs(f, func(in ssa.Instruction) {
-			st, isS := in.(*ssa.Store)
-			if !isS {
-				return
-			}
-			ia, isI := st.Addr.(*ssa.IndexAddr)
-			if !isI {
-				return
-			}
-			isState := strings.HasSuffix(accessPath(ia.X), ".a")
-			if bo, isB := st.Val.(*ssa.BinOp); isB && isState && (bo.Op == token.XOR || bo.Op == token.OR) {
-				if ld, isL := bo.X.(*ssa.UnOp); isL && sameIndexAddr(ld.X, ia) {
-					rmws = append(rmws, rmw{ia.Index, bo.Y})
-					return
-				}
-			}
-			// a plain store of a padding constant anywhere (state or scratch buffer)
-			if k, isK := constInt(st.Val); isK && k == 0x80 {
-				plain = append(plain, st)
-			}
-			if strings.HasSuffix(accessPath(st.Val), ".dsbyte") {
-				plain = append(plain, st)
-			}
-		})
-		okDS, okFinal := false, false
-		for _, r := range rmws {
-			if strings.HasSuffix(accessPath(r.val), ".dsbyte") && strings.HasSuffix(accessPath(r.idx), ".n") {
-				okDS = true
-			}
-			if k, isK := constInt(r.val); isK && k == 0x80 {
-				if bo, isB := r.idx.(*ssa.BinOp); isB && bo.Op == token.SUB && strings.HasSuffix(accessPath(bo.X), ".rate") {
-					if one, isO := constInt(bo.Y); isO && one == 1 {
-						okFinal = true
-					}
-				}
-			}
-		}
-		c.check(okDS && okFinal && len(plain) == 0, "C08.pad", "padding bytes merged by XOR", f, "a[n] ^= dsbyte and a[rate-1] ^= 0x80: the two markers combine when only one byte is free", fmt.Sprintf("the padding markers are not both XOR-merged into the state (dsbyte at n: %v, 0x80 at rate-1: %v, plain stores of a marker: %d) — with one free byte the second marker overwrites the first", okDS, okFinal, len(plain)))
-		// permute follows
-		okPerm := false
-		for _, ci := range calls(f, func(n string) bool { return strings.HasSuffix(n, "state).permute") }) {
-			okPerm = true
-			_ = ci
-		}
-		c.check(okPerm, "C08.pad", "padAndPermute permutes", f, "the padded block is permuted", "the padded block is not permuted")
-	}
-	for _, lc := range []struct {
-		fn        string
-		rate, out int64
-	}{{"NewLegacyKeccak256", 136, 32}, {"NewLegacyKeccak512", 72, 64}} {
-		f := c.fn("sha3", lc.fn)
-		if f == nil {
-			continue
-		}
-		var lit map[string]ssa.Value
-		for _, r := range returnsOf(f) {
-			lit = litFields(stripConv(retVal(r, 0)))
-		}
-		ok := lit != nil
-		if ok {
-			r, ok1 := constInt(lit["rate"])
-			o, ok2 := constInt(lit["outputLen"])
-			d, ok3 := constInt(lit["dsbyte"])
-			ok = ok1 && ok2 && ok3 && r == lc.rate && o == lc.out && d == 1 && r == 200-2*o
-		}
-		c.check(ok, "C08.pad", "sha3."+lc.fn, f, fmt.Sprintf("rate %d = 200 - 2*%d, domain byte 0x01", lc.rate, lc.out), "legacy Keccak parameters differ from rate = 200 - 2*outputLen with domain byte 0x01")
-	}
-	if f := c.fn("sha3", "(*state).Write"); f != nil {
-		// permute exactly when n == rate after absorbing
-		ok := false
-		for _, ci := range calls(f, func(n string) bool { return strings.HasSuffix(n, "state).permute") }) {
-			for _, p := range ci.Block().Preds {
-				if iff, isIf := p.Instrs[len(p.Instrs)-1].(*ssa.If); isIf && p.Succs[0] == ci.Block() {
-					if bo, isB := iff.Cond.(*ssa.BinOp); isB && bo.Op == token.EQL {
-						a, b := accessPath(bo.X), accessPath(bo.Y)
-						if strings.HasSuffix(a, ".n") && strings.HasSuffix(b, ".rate") || strings.HasSuffix(b, ".n") && strings.HasSuffix(a, ".rate") {
-							ok = true
-						}
-					}
-				}
-			}
-		}
-		c.check(ok, "C08.pad", "sha3.(*state).Write permutes full blocks", f, "permute exactly when n == rate", "Write does not permute exactly when the rate bytes are full")
-	}
+	c.check(!hasRefs(m.sponge, 0), "C08.sum-pure", "sha3."+m.sponge.Obj().Name()+" is reference-free", nil, "a value copy of the legacy sponge is deep", "the legacy sponge struct has a reference field; a value copy shares storage with the running state")
 }
